@@ -111,7 +111,7 @@ def execute(scenario, seed, overrides=None):
 
         def on_rx(t, rsock, data, addr, tx_idx, copy):
             if rsock.owner.name == "R":
-                rxlog.append((t, rsock.label, data))
+                rxlog.append((t, rsock.label, data, addr))
 
         w.net.on_rx = on_rx
         react = scenario.get("reactive")
@@ -181,11 +181,11 @@ class PtrTimeline:
         cache = ModelCache(None)
         guards = GuardSet()
         ty = type_.lower()
-        for (t, label, data) in rxlog:
-            if len(data) > wire.MAX_ABS or not guards.check(label, data, t * 1000.0):
+        for (t, label, data, addr) in rxlog:
+            if len(data) > wire.MAX_ABS or not guards.check(label, data, t * 1000.0, addr):
                 continue
             msg = wire.try_decode(data)
-            guards.accept(label, data, t * 1000.0, bool(msg and any(q.qu for q in msg.questions)))
+            guards.accept(label, data, t * 1000.0, bool(msg and any(q.qu for q in msg.questions)), addr)
             if msg is None or not msg.is_response:
                 continue
             eff = cache.apply_response(t * 1000.0, msg.records())
